@@ -14,6 +14,10 @@ import copy
 from gen import schema as gs
 
 BREAKING = 2
+MUST_BREAK = {"TypeChangedKind", "TypeRemoved", "TypeRemovedFromUnion", "TypeRemovedFromInterface", "EnumValueRemoved",
+              "DirectiveRemoved", "DirectiveLocationRemoved", "DirectiveArgumentRemoved", "DirectiveArgumentChangedType",
+              "FieldArgumentRemoved", "FieldArgumentChangedType", "FieldChangedType", "FieldRemoved", "InputFieldRemoved",
+              "InputFieldChangedType", "RootTypeChanged", "RootTypeRemoved"}
 
 
 def accepts(t, v):
@@ -348,8 +352,33 @@ def e_implement_interface(rng, d):
 
 def e_add_directive(rng, d):
     n = copy.deepcopy(d)
-    n["directives"].append({"name": "addedDirective", "locations": ["FIELD"], "args": [], "desc": None})
+    # executable-only, type-system-only and MIXED location sets: removing any of them takes something away from clients
+    locs = rng.choice([["FIELD"], ["FIELD_DEFINITION"], ["FIELD", "FIELD_DEFINITION"], ["INLINE_FRAGMENT", "ENUM_VALUE"],
+                       ["QUERY", "FIELD", "OBJECT", "ARGUMENT_DEFINITION"]])
+    n["directives"].append({"name": "addedDirective", "locations": locs, "args": [], "desc": None})
     return n, {"DirectiveAdded"}, {"DirectiveRemoved"}, "addedDirective"
+
+
+def e_remove_interface(rng, d):
+    """COMBINED edit: an interface is deleted and every object that implemented it stops doing so (fields stay). Every
+    elementary part must be reported: the type removal AND each lost implementation."""
+    n = copy.deepcopy(d)
+    ifs = [i for i in _objs(n, ("interface",))
+           if any(i["name"] in o["interfaces"] for o in _objs(n))
+           and not any(gs.ty_base(f["type"]) == i["name"] for t in n["types"] for f in t.get("fields", []))
+           and not any(i["name"] in u.get("members", []) for u in _objs(n, ("union",)))]
+    if not ifs:
+        return None
+    i = rng.choice(ifs)
+    n["types"] = [t for t in n["types"] if t["name"] != i["name"]]
+    impls = []
+    for o in _objs(n):
+        if i["name"] in o["interfaces"]:
+            o["interfaces"] = [x for x in o["interfaces"] if x != i["name"]]
+            impls.append(o["name"])
+    return (n, {"TypeRemoved", "TypeRemovedFromInterface"}, {"TypeAdded", "TypeAddedToInterface"}, i["name"],
+            ("all-of", {"fwd": ["TypeRemoved"] + ["TypeRemovedFromInterface"] * len(impls),
+                        "rev": ["TypeAdded"] + ["TypeAddedToInterface"] * len(impls)}))
 
 
 def e_directive_location(rng, d):
@@ -429,7 +458,7 @@ def e_root_added(rng, d):
     return n, {"RootTypeAdded"}, {"RootTypeRemoved"}, target
 
 
-EDITS = [e_root_repoint, e_root_added, e_required_by_default_removal, e_interface_arg_removed, e_interface_arg_default, e_add_type, e_add_field, e_retype_field, e_add_arg, e_retype_arg, e_arg_default, e_null_default, e_add_input_field,
+EDITS = [e_root_repoint, e_root_added, e_required_by_default_removal, e_remove_interface, e_interface_arg_removed, e_interface_arg_default, e_add_type, e_add_field, e_retype_field, e_add_arg, e_retype_arg, e_arg_default, e_null_default, e_add_input_field,
          e_retype_input_field, e_add_enum_value, e_enum_deprecation, e_field_deprecation, e_union_member,
          e_implement_interface, e_add_directive, e_directive_location, e_directive_arg, e_retype_directive_arg,
          e_change_kind]
@@ -505,6 +534,18 @@ def check_pair(ctx, rng, edit_name, old_d, new_d, expected, element, extra, dire
         fails.append(("edit-not-reported:%s:%s" % (edit_name, direction),
                       "edit %s (%s) of element %s not reported by a change of class %s; got %s"
                       % (edit_name, direction, element, sorted(real_expected), sorted(classes))))
+    if extra and extra[0] == "all-of":
+        want = extra[1][direction]
+        for cls in sorted(set(want)):
+            got_n = len([c for c in ch if c[0] == cls and element in c[2]])
+            if got_n < want.count(cls):
+                fails.append(("combined-edit-part-not-reported:%s:%s" % (edit_name, cls),
+                              "combined edit %s (%s): %d change(s) of class %s naming %s expected, %d reported"
+                              % (edit_name, direction, want.count(cls), cls, element, got_n)))
+    # classes that take something away from clients are BREAKING whatever their details (severity_table theorem)
+    for c in named:
+        if c[0] in MUST_BREAK and c[1] != BREAKING:
+            fails.append(("removal-not-breaking:%s" % c[0], "%s reported with severity %d: %s" % (c[0], c[1], c[2])))
     if extra and extra[0] == "became-required" and named:
         sev = named[0][1]
         if direction == "fwd" and sev != BREAKING:
